@@ -1,4 +1,5 @@
 import Slock.Proofs.AofCompact
+import Slock.Proofs.AofKeep
 import Slock.Properties.C08
 /-!
 # C16 — log compaction preserves the recoverable state, even if interrupted
@@ -7,7 +8,9 @@ Model (Model/Aof.lean): a directory is a list of (parsed name, bytes); `recoverD
 (`none` = start-up error); `compactionSteps cfg now keep cur d` = the ordered file-system mutations of `rewriteAofFiles`:
 `writeSteps` (open `rewrite.aof.tmp` in append mode, write kept records, write their values) then `clearSteps` (for each input:
 remove it, remove its `.dat`; rename tmp → `rewrite.aof`; rename tmp.dat → `rewrite.aof.dat`) — the order of aof.go 2091–2109.
-`keep` abstracts `LockDB.HasLock`.
+`keep` is a parameter in the crash theorems; the real rule is `keepRule now view` = `LockDB.HasLock` on the command the
+compaction builds, with `Expried := GetLockCommandExpriedTime(now)` — the REMAINING lifetime — and `CheckLockedEqual` through the
+regenerated kernels (`C16_keep_*`).
 
 Verdict on the unchanged code: `C16_crash` (every prefix of the mutation list recovers to the same state) is FALSE:
 * crash after an input has been removed and before the first rename: its live records are gone (`C16_crash_fails`);
@@ -44,6 +47,39 @@ theorem C16_content_partial {σ : Type} (replay : σ → Rec → σ) (keep : Rec
     (recs cur : List Rec) (s : σ) :
     (((recs.filter keep).map markRewritten) ++ cur).foldl replay s = (recs ++ cur).foldl replay s := by
   rw [List.foldl_append, List.foldl_append, replay_kept replay keep hdrop hmark recs s]
+
+/-! ### The keep-rule on aged records -/
+
+/-- **A record that describes a live hold is kept whatever its age — seconds.** The hold has deadline `d = s + e + 1`; the
+record was written at `c` (`s ≤ c`), the compaction runs at `n` (`c ≤ n < d`): the expiry comparison of `CheckLockedEqual` on
+the remaining lifetime succeeds, so the decision is the count comparison alone. -/
+theorem C16_keep_aged_seconds (ef e : Nat) (s c n : Int) (countEq : Bool) (h : IsSeconds ef) (he : 0 < e) (he2 : e ≤ 65535)
+    (hs : 0 ≤ s) (hsc : s ≤ c) (hcn : c ≤ n) (hnd : n < s + e + 1) :
+    Slock.Gen.K.checkLockedEqual n (s + e + 1) ef (loadRemaining ef (writeRemaining ef e (some (s + e + 1)) c) c n) countEq = countEq :=
+  keep_aged_seconds ef e s c n countEq h he he2 hs hsc hcn hnd
+
+/-- Same for the minute unit (tolerance 60 s). -/
+theorem C16_keep_aged_minutes (ef e : Nat) (s c n : Int) (countEq : Bool) (h : IsMinutes ef)
+    (hcn : c ≤ n) (hnd : n < s + (e : Int) * 60 + 1) (hov : s + (e : Int) * 60 + 1 - c ≤ 60 * 65535) :
+    Slock.Gen.K.checkLockedEqual n (s + (e : Int) * 60 + 1) ef
+      (loadRemaining ef (writeRemaining ef e (some (s + (e : Int) * 60 + 1)) c) c n) countEq = countEq :=
+  keep_aged_minutes ef e s c n countEq h hcn hnd hov
+
+/-- The keep-rule on a LOCK record with the update-when-locked flag and no value is exactly that comparison. -/
+theorem C16_keep_rule_update_record (now : Int) (view : List KeyView) (r : Rec) (k : KeyView) (h : HoldView)
+    (hk : view.find? (fun k => k.db = recDb r.buf ∧ k.key = recKey r.buf) = some k)
+    (hh : k.holds.find? (fun h => h.lockId = recLockId r.buf) = some h)
+    (hct : commandType r.buf = 1) (hfl : recFlag r.buf &&& 0x02 ≠ 0) (hd : r.data = none)
+    (hnz : ¬ (keepExpried now r.buf = 0 ∧ expriedFlag r.buf &&& 0x4440 = 0)) :
+    keepRule now view r = lockedEqual now h r.buf :=
+  keepRule_update_record now view r k h hk hh hct hfl hd hnz
+
+/-- Non-vacuity, and why the rule must use the REMAINING lifetime: a 100-second hold granted at 1000 (deadline 1101),
+journalled at 1010 (91 s stored), compacted at 1050 (40 s old): remaining lifetime 51 ⇒ kept; comparing the RECORDED lifetime
+(91) instead would drop the record of a live hold. -/
+theorem C16_keep_aged_example :
+    writeRemaining 0 100 (some 1101) 1010 = 91 ∧ loadRemaining 0 91 1010 1050 = 51 ∧
+    Slock.Gen.K.checkLockedEqual 1050 1101 0 51 true = true ∧ Slock.Gen.K.checkLockedEqual 1050 1101 0 91 true = false := by decide
 
 /-! ### Witnesses (evaluated by the kernel) -/
 
